@@ -48,10 +48,11 @@ PROPS = {
                  covers=["create-ok", "create-refused", "update-ok", "update-refused", "delete-ok", "delete-refused", "index-absent-over-deletion-mark", "done"]),
             dict(run=B + "VerifC01Seq", quick=dict(ops=3, keys=1, val9=0), thorough=dict(ops=3, keys=2, val9=0), covers=["create-ok", "create-refused", "update-ok", "update-refused", "delete-ok", "delete-refused", "delete-absent", "done"]),
             dict(run=B + "VerifC01Seq", name="C01_seq4", thorough=dict(ops=4, keys=1, val9=0), tiers=["thorough"], covers=["done"]),
+            dict(run=B + "VerifC01Race", name="C01_three", thorough=dict(clients=3, scenario=1, keys=1, val9=0, preempt=1), tiers=["thorough"], covers=["one-loses", "done"]),
         ],
         bounds=dict(quick="2 concurrent clients on 1 key after a 1-write history (initial states: never existed, live, deleted), every interleaving of their store operations and revision dealing with at most 1 preemption; sequential histories of 3 writes; expected revisions unconstrained 64-bit; both conflict-reporting styles of the engine contract; the same two clients after fixed key histories (deleted with the mark present, two versions, deleted and re-created); one write from an arbitrary store state of one key satisfying the representation invariant (0..2 versions with symbolic revisions, deletion marks, every allowed form of the index record, any compaction record), invariant re-established (inductive step)",
                     thorough="the quick harnesses with 2 scheduling deviations for both races; the inductive step over 0..3 versions; sequential histories of 3 writes over 2 keys and of 4 writes over 1 key"),
-        outside="engines' own transaction isolation (assumed by the contract store; adapters in C11); unknown-outcome faults (C09); more than 2 concurrent clients; deleted-and-compacted initial state is covered by C07's after-compaction write",
+        outside="engines' own transaction isolation (assumed by the contract store; adapters in C11); unknown-outcome faults (C09); more than 2 concurrent clients in the quick tier, more than 3 in the thorough tier (3 clients after fixed key histories, 1 scheduling deviation); deleted-and-compacted initial state is covered by C07's after-compaction write",
         assumptions=["an unguarded delete (expected revision 0) is executed as 'delete the version I read'; its failure is accepted when a concurrent write to the key succeeded while it was in flight"],
     ),
     "C05": dict(
@@ -105,7 +106,7 @@ PROPS = {
             dict(run=B + "VerifC13Retry", quick=dict(val9=0, borders=1, iterfaults=8), thorough=dict(val9=0, borders=2, iterfaults=12),
                  covers=["partitioned", "iterator-fault", "done"]),
         ],
-        bounds=dict(quick="2-write histories on 1 key, 2 partitions with the border at Encode(name, rev) for any 64-bit rev (index record, inside versions, beyond), pieces reported in any order; unlimited list, count, streamed range at every readable revision over the whole prefix or an interval that starts or ends exactly on a stored key; retry: 3 keys (one updated), 1 border, one transient iterator fault at any of the first 8 steps of the scan of any piece of an unlimited list / count / streamed range at the latest revision",
+        bounds=dict(quick="2-write histories on 1 key, 2 partitions with the border at Encode(name, rev) for any 64-bit rev (index record, inside versions, beyond), pieces reported in any order; unlimited list, count, streamed range as a whole and streamed per advertised partition (GetPartitions, then one stream per piece) at every readable revision over the whole prefix or an interval that starts or ends exactly on a stored key; retry: 3 keys (one updated), 1 border, one transient iterator fault at any of the first 8 steps of the scan of any piece of an unlimited list / count / streamed range at the latest revision",
                     thorough="2 keys, up to 3 partitions; the retry harness with 2 borders and a fault at any of the first 12 iterator steps"),
         outside="borders that are not well-formed internal keys; a retry after a batch of the failed attempt was already sent (batches hold 300 keys); more than one engine fault per read",
     ),
